@@ -387,11 +387,16 @@ def switchOf : SinkRes → Switch
   | .indicator => .none
 
 /-- the sink policy `pol` of the model and the tree-construction feedback `tree` of the
-specification give the same answers: they depend on the tag only (resp. the CDATA answer is
-constant), and the sink never pauses the tokenizer -/
+specification give the same answers on corresponding token histories (the specification's history
+is the canonical form `flat` of the model's token log — so the policy may depend on everything
+delivered so far, but not on parse errors, line numbers or the way text is cut into character
+tokens), and the sink never pauses the tokenizer (no Script / EncodingIndicator answers):
+* the tokenizer-state switch after a tag token (the specification passes the history *including* the
+  tag just emitted, html5ever's sink is asked before the token is logged);
+* the answer to "is there an adjusted current node that is not in the HTML namespace" (CDATA). -/
 structure PolTree (pol : Pol) (tree : Tree) : Prop where
   noPause : ∀ out tag, pol.onTag out tag ≠ .script ∧ pol.onTag out tag ≠ .indicator
-  onTag : ∀ out es tag, tree.onTag es tag = switchOf (pol.onTag out tag)
-  cdata : ∀ out es, tree.foreign es = pol.cdataOk out
+  onTag : ∀ out tag, tree.onTag (Emit.tag tag :: flat out) tag = switchOf (pol.onTag out tag)
+  cdata : ∀ out, tree.foreign (flat out) = pol.cdataOk out
 
 end H5V.Lemmas.HtmlTokSpec
